@@ -238,7 +238,7 @@ func init() {
 				one(&c)
 			}
 		}
-		n := ctx.N(500, 12000)
+		n := ctx.N(500, 5000)
 		for k := 0; k < n; k++ {
 			c := c07Gen(ctx.R, ctx.Thorough())
 			if k%5 == 4 {
